@@ -10,7 +10,7 @@ KNOWN = os.path.join(VERIF, 'known_findings.json')
 
 
 class Obligation:
-    __slots__ = ('rule', 'anchor', 'loc', 'fact', 'ok', 'detail', 'construct', 'nontrivial', 'known')
+    __slots__ = ('rule', 'anchor', 'loc', 'fact', 'ok', 'detail', 'construct', 'nontrivial', 'known', 'robust', 'stmtdiff')
 
     def __init__(self, rule, anchor, loc, fact, ok, detail='', construct='', nontrivial=True):
         self.rule = rule
@@ -22,6 +22,8 @@ class Obligation:
         self.construct = construct
         self.nontrivial = nontrivial
         self.known = None
+        self.robust = False
+        self.stmtdiff = None
 
     def as_dict(self):
         d = {'rule': self.rule, 'anchor': self.anchor, 'loc': self.loc, 'fact': self.fact,
@@ -43,6 +45,8 @@ class Check:
         self.errors = []
         self.not_decided = []
         self.functions = set()
+        self.templated = set()
+        self.cone = None
         self.minimums = {}
         self.explanation = ''
         self.assumptions = []
@@ -52,9 +56,10 @@ class Check:
         self.persist = True
         self.equiv = set()
         self.soft_skipped = set()
+        self.restructured = set()
 
     # recording ---------------------------------------------------------------
-    def ob(self, rule, fi, node, fact, ok, detail='', construct=None, nontrivial=True, soft=False):
+    def ob(self, rule, fi, node, fact, ok, detail='', construct=None, nontrivial=True, soft=False, robust=False):
         """Record one obligation. `fi` is a FuncInfo (or None), `node` the ast node it is about."""
         if soft and not ok and fi is not None and fi.qual in self.equiv:
             # a name-sensitive fact about a function that was proven equal (modulo renaming) to its reviewed
@@ -69,6 +74,7 @@ class Check:
             from .core import norm_stmt
             construct = norm_stmt(node) if node is not None else fact
         o = Obligation(rule, anchor, loc, fact, bool(ok), detail, construct, nontrivial)
+        o.robust = robust
         self.obs.append(o)
         return o
 
@@ -82,13 +88,55 @@ class Check:
         self.not_decided.extend(clauses)
 
     # finishing -----------------------------------------------------------------
+    def settle_restructuring(self, repo):
+        """A change that rewrites a reviewed function wholesale (most of its statements differ from the reviewed form, or
+        it now calls helpers that cannot be inlined) is a RESTRUCTURING: the rules whose matchers were validated on the
+        reviewed shape cannot decide it, and say so (ANALYSIS-ERROR, exit 2) instead of guessing a violation. Rules that
+        positively identify a violating construct wherever it sits (robust) keep their verdict."""
+        if repo is not None:
+            from .template import reviewed_shape, statement_shape, shape_diff
+            memo = {}
+            for o in self.obs:
+                if o.ok or o.stmtdiff or o.robust:
+                    continue
+                if o.anchor not in memo:
+                    fi = repo.funcs.get(o.anchor)
+                    ref = reviewed_shape(o.anchor)
+                    memo[o.anchor] = (shape_diff(ref, statement_shape(fi)), len(ref)) if (fi is not None and ref) else None
+                o.stmtdiff = memo[o.anchor]
+        big = [o for o in self.obs if not o.ok and o.stmtdiff and ((o.stmtdiff[0] >= 8 and o.stmtdiff[0] >= 0.5 * o.stmtdiff[1]) or o.stmtdiff[0] >= 40)]
+        refused = []
+        inl = getattr(repo, 'inliner', None) if repo is not None else None
+        if inl is not None:
+            refused = sorted({'%s (%s)' % (h.split(':')[-1], why) for c, h, why in inl.refused if c in self.functions})
+        mismatching = {o.anchor: o for o in self.obs if not o.ok and o.stmtdiff and o.stmtdiff[0] and o.rule == 'RECUR'}.values()
+        mismatching = list(mismatching)
+        if not big and not refused and len(mismatching) < 4:
+            return
+        self.restructured = {o.anchor for o in mismatching} or {'*'}
+        reason = []
+        if big:
+            reason.append('rewritten: ' + ', '.join(sorted({'%s (%d of %d statements)' % (o.anchor.split(':')[-1], o.stmtdiff[0], o.stmtdiff[1]) for o in big})[:4]))
+        if refused:
+            reason.append('calls helpers that cannot be inlined: ' + ', '.join(refused[:4]))
+        if len(mismatching) >= 4:
+            reason.append('%d reviewed functions differ at once' % len(mismatching))
+        keep = []
+        for o in self.obs:
+            if not o.ok and not o.robust:
+                self.errors.append((o.rule, 'RESTRUCTURED: cannot decide "%s" at %s [%s]' % (o.fact[:90], o.loc, '; '.join(reason)[:300])))
+            else:
+                keep.append(o)
+        self.obs = keep
+
     def finish(self, repo=None):
+        self.settle_restructuring(repo)
         known = load_known()
         counts = {}
         for o in self.obs:
             counts[o.rule] = counts.get(o.rule, 0) + 1
         for rule, minimum in self.minimums.items():
-            if counts.get(rule, 0) < minimum and rule not in self.soft_skipped:
+            if counts.get(rule, 0) < minimum and rule not in self.soft_skipped and not self.restructured:
                 self.errors.append((rule, 'rule matched %d instance(s), fewer than the %d confirmed by reading '
                                           '(a rule that matches nothing must not pass vacuously)' % (counts.get(rule, 0), minimum)))
         violations = []
@@ -153,6 +201,7 @@ class Check:
             'by_rule': by_rule,
             'minimum_instances': self.minimums,
             'functions_analysed': sorted(self.functions),
+            'dependency_cone': self.cone,
             'not_decided': self.not_decided,
             'checker_cmd': './check %s --tier %s' % (self.prop, self.tier),
             'trusted_base': self.trusted or ['CPython ast module', 'rule tables in pvs/rules (confirmed by reading)'],
